@@ -6,7 +6,7 @@
    "the certificate is in c_trusted / s_client_trusted" (what Verify returns at the configured time, name, roots). *)
 From Coq Require Import List NArith Arith Bool Lia.
 From GmsmVerif Require Import Lib.Outcome HS.HSTerms HS.HSModel HS.HSProofs HS.HSClientFlight HS.HSTlsClientFlight HS.HSServerFlight HS.HSAuth HS.HSAuth2 HS.HSNames HS.HSSystem HS.HSSessions
-     HS.HSMsgParsers HS.HSMsgMarshal HS.HSMsgMarshalProofs.
+     HS.HSMsgParsers HS.HSMsgMarshal HS.HSMsgMarshalProofs Gen.HSSigTables HS.HSSigAlg HS.HSSigAlgProofs.
 Import ListNotations.
 Local Open Scope N_scope.
 
@@ -252,6 +252,53 @@ Theorem C08_receiver_reads_what_sender_marshalled : forall ctx ws,
 Proof. intros ctx ws H. apply read_msgs_transcript; [exact H|apply Nat.lt_succ_diag_r]. Qed.
 Print Assumptions C08_receiver_reads_what_sender_marshalled.
 
+(* 10. gmtls/auth.go: the signature scheme negotiation (HS/HSSigAlg.v; the scheme tables, the package list, the returns of
+   the fixed branch, the types the loop accepts and the key type each case of verifyHandshakeSignature asserts are read
+   from the source by the translator, Gen/HSSigTables.v).  The signer of a CertificateVerify or ServerKeyExchange picks
+   (scheme, signature type, hash) from the peer's list and its own; from TLS 1.2 on the message carries the scheme and
+   the verifier picks from that one-element list and ITS list.  For every key type, version, lists and outcome in which
+   both succeed, the verifier uses the same signature type and hash - hence the same digest of the same handshake data. *)
+Theorem C08_signer_and_verifier_use_the_same_algorithm : forall pk peer1 ours1 ours2 vers x alg st h alg' st' h',
+  pickSignatureAlgorithm pk peer1 ours1 vers = Ok (alg, st, h) ->
+  pickSignatureAlgorithm pk [if gsig_VersionTLS12 <=? vers then alg else x] ours2 vers = Ok (alg', st', h') ->
+  st' = st /\ h' = h /\
+  hashForClientCertificate vers st' h' = hashForClientCertificate vers st h /\
+  hashForServerKeyExchange vers st' h' = hashForServerKeyExchange vers st h.
+Proof.
+  intros pk peer1 ours1 ours2 vers x alg st h alg' st' h' Hs Hv.
+  destruct (signer_verifier_agree _ _ _ _ _ _ _ _ _ _ _ _ Hs Hv) as [-> ->]. repeat split; reflexivity.
+Qed.
+Print Assumptions C08_signer_and_verifier_use_the_same_algorithm.
+
+(* no panic ("supported signature algorithm has an unknown hash function") when the own list is the package's
+   supportedSignatureAlgorithms or any sublist of it - the only lists the handshake code passes *)
+Theorem C08_pick_signature_algorithm_no_panic : forall pk peer ours vers,
+  (forall a, In a ours -> In a gen_supportedSignatureAlgorithms) ->
+  pickSignatureAlgorithm pk peer ours vers <> Panic /\ pickSignatureAlgorithm pk peer ours vers <> Hang.
+Proof. intros pk peer ours vers H. apply pick_no_panic. intros a Ha. apply package_list_known. apply H. exact Ha. Qed.
+Print Assumptions C08_pick_signature_algorithm_no_panic.
+
+(* the picked signature type is verified with the key type it was picked for: always for RSA and ECDSA keys; an
+   *sm2.PublicKey passes in the fixed branch (signatureSM2) and is refused by verifyHandshakeSignature after the TLS 1.2
+   negotiation (signatureECDSA insists on an *ecdsa.PublicKey) - it fails closed *)
+Theorem C08_picked_signature_type_matches_key : forall pk peer ours vers alg st h,
+  pickSignatureAlgorithm pk peer ours vers = Ok (alg, st, h) ->
+  (pk = PK_RSA \/ pk = PK_ECDSA -> verify_key_ok st pk = true) /\
+  (pk = PK_SM2 -> verify_key_ok st pk = ((vers <? gsig_VersionTLS12) || Nat.eqb (length peer) 0)).
+Proof. exact picked_type_matches_key. Qed.
+Print Assumptions C08_picked_signature_type_matches_key.
+
+(* GMSSL: the client signs SM3(transcript) (finishedHash.client.Sum) without any negotiation; the server, for either key
+   type an SM2 certificate parses to and whatever lists are around, verifies a digest that is SM3(transcript) with a key
+   type its verifyHandshakeSignature case accepts *)
+Theorem C08_gm_certificate_verify_digest_agrees : forall pk peer ours, pk = PK_ECDSA \/ pk = PK_SM2 ->
+  exists alg st h,
+    pickSignatureAlgorithm pk peer ours HSSigAlg.VersionGMSSL = Ok (alg, st, h) /\
+    hashForClientCertificate HSSigAlg.VersionGMSSL st h = Ok gm_client_certificate_verify_digest /\
+    verify_key_ok st pk = true.
+Proof. exact gm_certificate_verify_agrees. Qed.
+Print Assumptions C08_gm_certificate_verify_digest_agrees.
+
 (* ---- non-vacuity ----------------------------------------------------------------------------------------- *)
 Definition ex_sig := TCert 1 KIND_SM2 KU_SIGN 101.
 Definition ex_enc := TCert 2 KIND_SM2 KU_ENC 102.
@@ -452,3 +499,17 @@ Proof.
     + apply orb_prop in Hm. destruct Hm as [Hm|Hm]; [|discriminate]. apply term_eqb_eq in Hm. subst c. reflexivity.
   - intros id [<-|[]]. left. reflexivity.
 Qed.
+
+(* auth.go: TLS 1.2 with an RSA key picks the peer's first scheme we support; before TLS 1.2 the lists are ignored;
+   an ECDSA key skips RSA schemes; nothing in common is an error; an own list with a scheme lookupTLSHash does not know
+   (never passed by the handshake code) is the panic of the source *)
+Example C08_sigalg_examples :
+  pickSignatureAlgorithm PK_RSA [2052; 1025] gen_supportedSignatureAlgorithms 771 = Ok (1025, 16, 5) /\
+  pickSignatureAlgorithm PK_RSA [2052; 1025] gen_supportedSignatureAlgorithms 770 = Ok (0, 16, 8) /\
+  pickSignatureAlgorithm PK_ECDSA [1025; 1283] gen_supportedSignatureAlgorithms 771 = Ok (1283, 17, 6) /\
+  pickSignatureAlgorithm PK_ECDSA [] gen_supportedSignatureAlgorithms 771 = Ok (515, 17, 3) /\
+  pickSignatureAlgorithm PK_RSA [1027] gen_supportedSignatureAlgorithms 771 = Err 2 /\
+  pickSignatureAlgorithm PK_SM2 [516] [516] 771 = Panic /\
+  hashForClientCertificate 769 17 3 = Ok D_SHA1 /\ hashForClientCertificate 769 16 8 = Ok D_MD5SHA1 /\
+  hashForClientCertificate 257 19 3 = Ok D_SM3 /\ hashForServerKeyExchange 771 16 6 = Ok D_SHA384.
+Proof. vm_compute. repeat split; reflexivity. Qed.
